@@ -53,6 +53,31 @@ CLAIMED = {
         note=ROUTE_NOTE + " Faults are injected at quiescent states only (between cascades), <=1 fault per path in quick, <=2 in thorough.",
         technique="explicit-state BFS over event orders x fault positions on the implementation",
         design_ref="5/C04", engine="A-macro"),
+    "C06": dict(
+        level="model_checking",
+        text="Explicit-state BFS over all interleavings of <=2 (quick) / <=3 (thorough) responses source->initiator and sync-states "
+             "initiator->source with, at every position, every ending kind (source EOF / error / response without Messages; initiator EOF / "
+             "error / cancelled context / request that is not SyncReplicationState; next Send to either side fails; opening the source stream "
+             "fails; a 1 s time step), in default and LCM mode, each transition executed on the real StreamWorkflowReplicationMessages -> "
+             "handleStream -> StreamForwarder.Run in a synctest bubble. Oracles: each side received a prefix of what the other emitted, all of "
+             "it while nothing has ended; after an ending the handler returns within the 1 s CloseSend guard, the source stream is half-closed "
+             "or cancelled and its context cancelled, and no goroutine of the bubble is left blocked (leak detection by the bubble itself).",
+        note="Trusted: fake stream endpoints and the well-behaved-peer rule (EOF after CloseSend). Which ready case a Go select takes is left to "
+             "the runtime (both outcomes satisfy the oracle); goroutine interleavings inside one cascade are not enumerated at this level.",
+        technique="explicit-state BFS over message/ending interleavings on the implementation (virtual time)",
+        design_ref="5/C06", engine="A-macro"),
+    "C20": dict(
+        level="model_checking",
+        text="Bounded-exhaustive histories of stream opens on the real StreamWorkflowReplicationMessages handler with the real "
+             "ReplicationStreamObserver in default, LCM and routing mode: each metadata key over a boundary alphabet (int32 limits, the "
+             "overflow thresholds of the table-size computation, non-numeric, empty, missing), pairs (thorough: triples) over the boundary "
+             "subset, streams kept open or closed, then a well-formed open that must be served (one message relayed each way) with its "
+             "bookkeeping intact, and nothing counted active after all streams ended. The observer's lock calls are rewritten to parking "
+             "shims so 'lock never released' is detected as a state, worker processes run under a 6 GiB address-space limit so a crash or "
+             "runaway allocation is attributed to the history that caused it.",
+        note="Trusted: lock shim (TryLock + durable park), worker pool attribution. Alphabet is boundary values, not all int32.",
+        technique="bounded-exhaustive enumeration of open histories on the implementation with deadlock detection",
+        design_ref="5/C20", engine="A-macro"),
     "C05": dict(
         level="model_checking",
         text="Explicit-state breadth-first search over the real proxyIDRingBuffer (cloned through its private "
@@ -109,7 +134,7 @@ def main():
         "engines": [
             {"name": "B-seq", "path": "/verif/harness", "serves_properties": ["C05"],
              "kind_free_text": "explicit-state / bounded-exhaustive enumeration driving the real code in-package"},
-            {"name": "A-macro", "path": "/verif/harness/proxy/routing_*.go + /verif/rt/pool.go", "serves_properties": ["C01", "C02", "C03", "C04"],
+            {"name": "A-macro", "path": "/verif/harness/proxy/routing_*.go + /verif/rt/pool.go", "serves_properties": ["C01", "C02", "C03", "C04", "C06", "C20"],
              "kind_free_text": "explicit-state BFS whose transitions are executions of the real goroutines in testing/synctest bubbles; "
                                "successors by replay; 16 persistent GOMAXPROCS=1 worker processes"},
         ],
